@@ -297,8 +297,19 @@ class World:
                 src = f'def {f["name"]}({st}):\n    return (yield from __w.run_gen(__name, {envexpr}))\n'
             else:
                 src = f'async def {f["name"]}({st}):\n    return await __w.run_async(__name, {envexpr})\n'
-            exec(src, ns)
-            fn = ns[f['name']]
+            if f.get('clone_of'):
+                # the same code object as the function it is cloned from, with its own defaults (what a factory / a loop over `def` produces)
+                import types
+                base = self.raw[f['clone_of']]
+                g2 = dict(base.__globals__); g2['__name'] = f['name']
+                posd = tuple(val(p[2]) for p in f['sig'] if p[1] in ('PosOnly', 'PosOrKw') and p[2] is not None)
+                fn = types.FunctionType(base.__code__, g2, f['name'], posd or None, base.__closure__)
+                kwd = {p[0]: val(p[2]) for p in f['sig'] if p[1] == 'KwOnly' and p[2] is not None}
+                if kwd: fn.__kwdefaults__ = kwd
+            else:
+                exec(src, ns)
+                fn = ns[f['name']]
+            self.raw = getattr(self, 'raw', {}); self.raw[f['name']] = fn
             self.bodies[f['name']] = f['body']; self.kinds[f['name']] = f['kind']
             for it in f['stack']:
                 k = it[0]
